@@ -1663,6 +1663,7 @@ func main() {
 		lits[litKey{pl.strct, "init"}] = append(lits[litKey{pl.strct, "init"}], pl.site)
 	}
 	reached := map[*types.Func]bool{}
+	resolvedMutators := map[string]bool{}
 	locksSeen := map[string]bool{}
 	for len(work) > 0 {
 		c := work[0]
@@ -1677,6 +1678,11 @@ func main() {
 			k := rowKey{loc: ac.loc, role: c.role, write: ac.write, locks: hh.String(), atomic: ac.atomic,
 				fresh: freshAt(c.fn, ac.root, ac.pos, paramFresh)}
 			rows[k] = append(rows[k], fmt.Sprintf("%s %s", c.fn.key, w.pos(ac.pos)))
+			if ac.loc == "Server.resolved" && ac.method != "Load" && ac.method != "Range" {
+				// a sync.Map call that can change Server.resolved: where, and is docVerMu held?
+				_, locked := hh["Server.docVerMu"]
+				resolvedMutators[fmt.Sprintf("(%q, %s)", c.fn.key, map[bool]string{true: "true", false: "false"}[locked])] = true
+			}
 			for l := range hh {
 				locksSeen[l] = true
 			}
@@ -1953,6 +1959,12 @@ func main() {
 	fmt.Fprintf(&b, "/-- cmd/hledger-lsp: no AsyncHandler, no go statement: the jsonrpc2 read loop calls the handler inline -/\ndef serialHandler : Bool := %s\n", boolS(serial))
 	fmt.Fprintf(&b, "/-- cmd/hledger-lsp main: NewServer and SetClient come before conn.Go -/\ndef setClientBeforeServe : Bool := %s\n\n", boolS(setClientFirst))
 	fmt.Fprintf(&b, "/-- exported methods of *Server from which a read of Server.resolved (Load / Range) is reachable without passing a go statement -/\ndef resolvedReaders : List String := %s\n\n", strList(resolvedReaders, 0))
+	var muts []string
+	for m := range resolvedMutators {
+		muts = append(muts, m)
+	}
+	sort.Strings(muts)
+	fmt.Fprintf(&b, "/-- every function, in any role, that calls a method of the sync.Map Server.resolved other than Load / Range\n    (Store, Delete, ...), paired with: is Server.docVerMu held at the call (in every calling context listed) -/\ndef resolvedMutators : List (String × Bool) := [%s]\n\n", strings.Join(muts, ", "))
 	var unreached []string
 	for _, fi := range fis {
 		if fi.p.tracked && !reached[fi.obj] && len(fi.accesses) > 0 {
